@@ -126,7 +126,14 @@ type abstraction struct {
 	Pos  string `json:"pos"`
 }
 
+type outerScope struct {
+	paramVals  map[string]Val
+	localNames map[string][]*ssa.Alloc
+	escaping   map[*ssa.Alloc]bool
+}
+
 type Gen struct {
+	outerScopes     []outerScope
 	rootLoopSigs    []string
 	ownedCache      map[*ssa.Function]map[ssa.Value]bool
 	loopSigs        []string
@@ -875,6 +882,21 @@ func (g *Gen) inlineCall(st *State, fn *ssa.Function, args []Val, binds []Val, r
 	g.inlineDepth++
 	g.fn = fn
 	g.spec = g.W.specFor(fn)
+	pushedScope := false
+	if g.spec == nil && g.W.isNewFunc(fn) && sSpec != nil {
+		// a helper the change under test carved out of the function under contract: the calls and anchored statements it
+		// took along keep their call-site clauses / anchors / options (loop clauses stay with the function's own loops);
+		// names of the enclosing function that those clauses mention resolve through the saved scope
+		g.spec = &FuncSpec{Name: sSpec.Name, Pkg: sSpec.Pkg, Callees: sSpec.Callees, Asserts: sSpec.Asserts, SetAts: sSpec.SetAts,
+			Options: sSpec.Options, Binds: sSpec.Binds, AssumeSafe: sSpec.AssumeSafe, File: sSpec.File, Loops: map[int]*LoopSpec{}}
+		g.outerScopes = append(g.outerScopes, outerScope{paramVals: sPV, localNames: sNames, escaping: sEsc})
+		pushedScope = true
+	}
+	defer func() {
+		if pushedScope {
+			g.outerScopes = g.outerScopes[:len(g.outerScopes)-1]
+		}
+	}()
 	g.findLoops()
 	if g.W.isNewFunc(fn) && len(g.loops) > 0 {
 		// a loop that the change MOVED out of the function under contract into a new helper has lost its invariant (the
